@@ -30,7 +30,9 @@ def gen(rng):
         if rng.random() < 0.4:
             faults[site] = rng.choice(["first", "second", "every", "third"])
     return {"base": rng.choice(["sync", "pool", "pool"]), "layers": layers, "faults": faults, "nsub": rng.randint(1, 4),
-            "cancel_at": rng.choice([None, None, 0, 1]), "efn": rng.random() < 0.5}
+            "cancel_at": rng.choice([None, None, 0, 1]), "efn": rng.random() < 0.5,
+            # another thread keeps asking the returned futures (and the library futures below them) for their status
+            "observer": rng.random() < 0.5}
 
 
 def should_fault(mode, k):
@@ -138,6 +140,30 @@ def execute(p, chooser):
                 obs["escaped"].append(("add_done_callback", str(e)))
             # a second callback registered after the (possibly raising) one: it must still run, once
             futs[s].add_done_callback(wit(s))
+        stop = {"v": False}
+
+        def observer():
+            def chain(f):
+                out, seen = [], set()
+                while f is not None and id(f) not in seen and len(out) < 8:
+                    seen.add(id(f))
+                    out.append(f)
+                    f = getattr(f, "delegate_future", None) or getattr(f, "_delegate", None)
+                return out
+            rounds = 0
+            while not stop["v"] and rounds < 12:
+                rounds += 1
+                for s0, f0 in list(futs.items()):
+                    for f in chain(f0):
+                        for meth in ("running", "done", "cancelled"):
+                            try:
+                                getattr(f, meth)()
+                            except BaseException as e:
+                                if isinstance(e, det.Abort):
+                                    raise
+                                obs["escaped"].append((meth, type(e).__name__ + ":" + str(e)))
+                det.switch("observe")
+        obst = det.spawn("obs", observer) if p.get("observer") else None
         if p["cancel_at"] is not None:
             det.sleep(p["cancel_at"])
             for s, f in futs.items():
@@ -149,6 +175,9 @@ def execute(p, chooser):
                             raise
                         obs["escaped"].append(("cancel", type(e).__name__ + ":" + str(e)))
         det.wait_until(lambda: all(f._state in DONE for f in futs.values()) or quiescent() or det.S.now > 80)
+        stop["v"] = True
+        if obst is not None:
+            obst.join()
         for s, f in futs.items():
             obs["outs"][s] = f._state
             if f._state == "FINISHED":
